@@ -54,6 +54,8 @@ inductive Hazard where
   | attrWriteRaises  -- setting an attribute on `e` raises (`__setattr__`)
   | synNoLine        -- a SyntaxError whose `lineno`/`offset` is None (NUL byte, hand-raised)
   | synNoSource      -- a SyntaxError naming a file pedal has no source lines for
+  | attrMissingRaises -- reading an attribute `e` does not have raises something else than AttributeError (`__getattr__`)
+  | truthRaises      -- taking the truth value of `e` raises (`__bool__` / `__len__` raising or returning nonsense)
   deriving DecidableEq, Repr
 
 /-- How `ExpandedTraceback.line_number` picks the frame a runtime feedback is located on. -/
